@@ -2,6 +2,7 @@
 From Coq Require Import List String Ascii ZArith. Import ListNotations.
 From Coq Require Import List Bool ZArith.
 From SV Require Import Lib.Str Model.Types Model.Naming Model.Api Model.Back Proofs.BackProofs.
+From SV Require Import Model.FrontSmall Model.View Model.Front Proofs.FrontProofs.
 
 (* the implicit receiver is removed by dropping exactly the first parameter *)
 Theorem C06_receiver_skip : forall classes rmap nc ps indent,
@@ -37,7 +38,22 @@ Theorem C06_default_value : forall p s d s',
   end.
 Proof. exact render_default_literal. Qed.
 
+(* ANALYZER SIDE.  One parameter of the API object: Python name, id, passing kind as Python defines it; it is optional exactly
+   when the initializer yields a value (or None); and the literal defaults of the statement (int, float, str, bool, None,
+   signed numbers) are stored with their value *)
+Theorem C06_front_parameter : forall env d st f fid a p tv lg amb,
+  parse_parameter env d st f fid a = Ok (p, tv, lg, amb) ->
+  p_name p = ar_name a /\ p_id p = fid ++ K"/" ++ ar_name a /\
+  p_assigned p = spec_kind (ar_is_self a || ar_is_cls a) (ar_pos_only a) (ar_kind a) /\
+  (p_optional p = true <-> exists e, ar_init a = Some e /\ (fst (fst (default_of fid e)) <> None \/ snd (fst (default_of fid e)) = true)) /\
+  (forall e v, ar_init a = Some e -> signed_literal e = Some v -> p_default p = dval_of_pyval v).
+Proof. exact parse_parameter_shape. Qed.
+Theorem C06_front_literal_default : forall fid e v, signed_literal e = Some v ->
+  default_of fid e = (v, match v with None => true | Some _ => false end, []).
+Proof. exact default_of_literal. Qed.
 Print Assumptions C06_receiver_skip.
 Print Assumptions C06_param_name.
 Print Assumptions C06_param_default.
 Print Assumptions C06_default_value.
+Print Assumptions C06_front_parameter.
+Print Assumptions C06_front_literal_default.
